@@ -241,10 +241,14 @@ def loc_of(detail):
     if not m:
         return "?"
     f = m.group(1)
-    if f.startswith("/repo/"):
-        f = f[len("/repo/"):]
-    elif "/library/" in f:
+    if "/library/" in f and "/rustc/" in f:
         f = "std:" + f.split("/library/")[1]
+    else:
+        # cut everything before the crate directory, wherever the tree under test is checked out
+        # (/repo, a scratch worktree such as /tmp/mut-x, ...)
+        c = re.search(r"(?:^|/)((?:air|prover|verifier|fri|math|crypto|utils|winterfell|examples)/.*)$", f)
+        if c:
+            f = c.group(1)
     return "%s:%s" % (f, m.group(2))
 
 
